@@ -256,3 +256,43 @@ Example C02_nonvacuous_rules :
                                     {| wo_id := 9; wo_kind := OpQuery; wo_name := Some (15%N, "A"); wo_vars := [];
                                        wo_dirs := []; wo_ssid := 17; wo_sel := [] |} ]; w_frags := [] |} = [0%N].
 Proof. vm_compute. reflexivity. Qed.
+
+(* ---- tables generated from the source (harness/gen.go writes Gen/Rules.v and Gen/Directives.v
+   from rules.go and the linked library before every check run; these are re-proved then) ---- *)
+From GQL Require Gen.Rules Gen.Directives Tables.RuleTable Tables.DirectiveRules Run.C02run.
+
+(* The rule list of the source is the rule list of the model: the composite literal
+   SpecifiedRules of rules.go names, in order, exactly the 24 rules that Run.C02run.run_rule
+   implements under the indices 0..23 (Tables/RuleTable.v; 13 is the overlap rule); the linked
+   slice is that literal; no rule is listed twice. *)
+Theorem C02_gen_rule_list :
+  Gen.Rules.specified_rules = Tables.RuleTable.model_rule_names /\
+  Gen.Rules.specified_rules_linked = Gen.Rules.specified_rules /\
+  Tables.RuleTable.model_rule_indices = Tables.RuleTable.upto 24 /\
+  Tables.RuleTable.str_nodup Gen.Rules.specified_rules = true.
+Proof.
+  repeat split;
+  first [ vm_compute; reflexivity
+        | fail 1 "generated-table obligation C02_gen_rule_list no longer holds against the regenerated table: SpecifiedRules of rules.go (Gen/Rules.v) is not the rule list of the validation model (Tables/RuleTable.v)" ].
+Qed.
+Print Assumptions C02_gen_rule_list.
+
+(* ... and the model has no rule beyond the table: every other index reports nothing. *)
+Theorem C02_rule_indices_exhaustive : forall r S W, (24 <= r)%N -> Run.C02run.run_rule r S W = [].
+Proof.
+  intros [|p] S W H; [exfalso; apply H; reflexivity|].
+  do 5 (try (destruct p as [p|p|]; try reflexivity)); exfalso; apply H; reflexivity.
+Qed.
+Print Assumptions C02_rule_indices_exhaustive.
+
+(* The directive definitions the validation model uses (KnownDirectives, KnownArgumentNames,
+   ProvidedNonNullArguments, ArgumentsOfCorrectType on directive arguments) are the linked
+   graphql.SpecifiedDirectives: names, argument names / types / defaults, and the locations as
+   far as the model distinguishes them. *)
+Theorem C02_gen_specified_directives :
+  Tables.DirectiveRules.gen_ddefs = Some Validate.Rules.specified_directives.
+Proof.
+  first [ vm_compute; reflexivity
+        | fail 1 "generated-table obligation C02_gen_specified_directives no longer holds against the regenerated table: graphql.SpecifiedDirectives (Gen/Directives.v) are not the directive definitions of Validate/Rules.v" ].
+Qed.
+Print Assumptions C02_gen_specified_directives.
